@@ -236,6 +236,58 @@ def number(buf, n):
     return ('tok', 'number', i, None, ('normal',))
 
 
+def number_before_concat(buf, n):
+    """A numeral directly followed by '..' (1..x, 0x10..s, 1.5..x): Lua 5.2
+    calls it a malformed number, picotool (and PICO-8 programs in the wild)
+    read numeral, then the concatenation operator; step() abstains.  Under
+    either reading no token ends *between* the two dots.  Returns the length
+    of the numeral under the second reading, or None when buf is not of this
+    shape."""
+    c = buf[0]
+    dec = True
+    i = 0
+    isd = is_digit
+    if is_digit(c):
+        if c == 48 and n > 1 and Or(buf[1] == 120, buf[1] == 88):
+            dec = False
+            i = 2
+            isd = is_hexdigit
+        elif c == 48 and n > 1 and Or(buf[1] == 98, buf[1] == 66):
+            dec = False
+            i = 2
+            isd = is_bindigit
+    elif c == 46 and n > 1 and is_digit(buf[1]):
+        pass
+    else:
+        return None
+    j = i
+    while j < n and isd(buf[j]):
+        j += 1
+    intd = j > i
+    if j < n and buf[j] == 46 and Not(j + 1 < n and buf[j + 1] == 46):
+        k = j + 1
+        while k < n and isd(buf[k]):
+            k += 1
+        if k == j + 1 and (not dec or not intd):
+            return None
+        j = k
+    elif not intd:
+        return None
+    if dec and j < n and Or(buf[j] == 101, buf[j] == 69):
+        m = j + 1
+        if m < n and buf[m] == 45:
+            m += 1
+        if m < n and is_digit(buf[m]):
+            while m < n and is_digit(buf[m]):
+                m += 1
+            j = m
+        else:
+            return None
+    if j + 1 < n and buf[j] == 46 and buf[j + 1] == 46:
+        return j
+    return None
+
+
 def digits_frac(buf, n, i, isd):
     """digits [ '.' digits ] | '.' digits ; returns (end, well-formed)."""
     j = i
